@@ -17,6 +17,8 @@ ASSUMPTIONS = ["the Coq model covers axis renormalisation and tent rebasing (C09
 
 def N(tier, q, t): return q if tier == "quick" else t
 
+_FONTS = {}          # label -> font bytes of the current run (for classify)
+
 def correspondences(tier, rng):
     from props import C09
     keep = ("renormalizeValue", "rebaseTent", "normalizeValue", "piecewiseLinearMap", "tentval")
@@ -31,7 +33,7 @@ def gen_var_font(rng, avar=None, hvar=None, kern=True):
     from fontTools.ttLib.tables.TupleVariation import TupleVariation
     from fontTools.ttLib import newTable
     from props.C07 import _box, _add_hvar
-    order = [".notdef", "space", "a", "b", "c", "d"]
+    order = [".notdef", "space", "a", "b", "c", "d", "a.alt", "b.alt", "c.alt"]
     adv = {g: 300 + 40 * i for i, g in enumerate(order)}
     fb = FontBuilder(1000, isTTF=True); fb.setupGlyphOrder(order)
     fb.setupCharacterMap({32: "space", 97: "a", 98: "b", 99: "c", 100: "d"})
@@ -87,6 +89,25 @@ def gen_var_font(rng, avar=None, hvar=None, kern=True):
             if two and j % 2: vk.append("pos %s %s (wght=400,wdth=100:%d wght=400,wdth=200:%d wght=900,wdth=100:%d);" % (x, y, rng.randint(-80, 80), rng.randint(-80, 80), rng.randint(-80, 80)))
             else: vk.append("pos %s %s (wght=100:%d wght=400:%d wght=%d:%d wght=900:%d);" % (x, y, rng.randint(-80, 80), rng.randint(-80, 80), rng.choice([250, 650, 700]) , rng.randint(-80, 80), rng.randint(-80, 80)))
         addOpenTypeFeaturesFromString(font, "languagesystem DFLT dflt;\nfeature kern {\n  %s\n} kern;\n" % "\n  ".join(vk))
+    if rng.chance(60):
+        # conditional substitutions (GSUB FeatureVariations, 'rvrn'): one or more records, each a union of boxes in normalised space
+        from fontTools.varLib.featureVars import addFeatureVariations
+        tags_ = [a_[0] for a_ in axes]
+        def box():
+            b_ = {}
+            for t_ in rng.sample(tags_, rng.randint(1, len(tags_))):
+                lo = rng.choice([-1.0, -0.5, 0.0, 0.25, 0.5]); hi = rng.choice([v for v in (-0.25, 0.0, 0.5, 0.75, 1.0) if v > lo])
+                b_[t_] = (lo, hi)
+            return b_
+        conds = []
+        if len(tags_) > 1 and rng.chance(40):
+            # the same range on two axes, as separate records (their condition sets differ only by the axis index)
+            lo = rng.choice([-0.5, 0.0, 0.25, 0.5]); hi = rng.choice([v for v in (0.0, 0.5, 0.75, 1.0) if v > lo])
+            conds += [([{tags_[0]: (lo, hi)}], {"a": "a.alt"}), ([{tags_[1]: (lo, hi)}], {"b": "b.alt"})]
+        for g in rng.sample(["a", "b", "c"], rng.randint(1, 3)):
+            if any(g in m for _, m in conds): continue
+            conds.append(([box() for _ in range(rng.randint(1, 2))], {g: g + ".alt"}))
+        addFeatureVariations(font, conds)
     if hvar if hvar is not None else rng.chance(50):
         _add_hvar_2(font, rng, [a_[0] for a_ in axes], awd)
     b = io.BytesIO(); font.save(b)
@@ -196,6 +217,14 @@ def compare_instance(data, inst_bytes, inst_font, axes, ranges, locs, texts, opt
     f0 = TTFont(io.BytesIO(data)); order = f0.getGlyphOrder()
     remaining = {a.axisTag for a in inst_font["fvar"].axes} if "fvar" in inst_font else set()
     per_tuple = 1.0 if optimize else 0.5
+    cond_edges = []
+    for tt_ in ("GSUB", "GPOS"):
+        fv_ = getattr(f0[tt_].table, "FeatureVariations", None) if tt_ in f0 else None
+        if fv_ is not None:
+            for rec_ in fv_.FeatureVariationRecord:
+                for c_ in (rec_.ConditionSet.ConditionTable if rec_.ConditionSet else []):
+                    tag_ = f0["fvar"].axes[c_.AxisIndex].axisTag
+                    cond_edges += [(tag_, c_.FilterRangeMinValue), (tag_, c_.FilterRangeMaxValue)]
     cff2 = "CFF2" in f0
     nreg = 1
     if cff2 and "CFF2" in inst_font:
@@ -231,9 +260,13 @@ def compare_instance(data, inst_bytes, inst_font, axes, ranges, locs, texts, opt
             wa = h0.advance(gid); wb = h1.advance(gid)
             stats["max_advance_dev"] = max(stats.get("max_advance_dev", 0), abs(wa - wb))
             if abs(wa - wb) > 1.0 + tol: return "advance of %r at %r: original %r, instance %r (budget %.2f)" % (g, loc, wa, wb, 1.0 + tol)
+        # on (or within quantisation distance of) a FeatureVariations condition boundary the record chosen depends on F2Dot14 rounding
+        nl0 = _norm_loc(f0, loc); on_edge = any(abs(nl0.get(tag_, 0) - v_) < 0.004 for tag_, v_ in cond_edges)
         for t in texts:
             sa = h0.shape(t); sb = h1.shape(t)
-            if [x[0] for x in sa] != [x[0] for x in sb]: return "text %r at %r: original glyphs %r, instance %r" % (t, loc, sa, sb)
+            if [x[0] for x in sa] != [x[0] for x in sb]:
+                if on_edge: stats["skipped_on_condition_edge"] = stats.get("skipped_on_condition_edge", 0) + 1; continue
+                return "text %r at %r: original glyphs %r, instance %r" % (t, loc, sa, sb)
             for x, y in zip(sa, sb):
                 d = max(abs(p - q) for p, q in zip(x[1:], y[1:]))
                 stats["max_shape_dev"] = max(stats.get("max_shape_dev", 0), d)
@@ -265,13 +298,14 @@ def sweeps(tier, rng):
     from fontTools.ttLib import TTFont
     from fontTools.varLib import instancer
     from lib.hb import save_bytes
-    nf = 40 if tier == "quick" else 100 if tier == "search" else 1200
+    nf = 120 if tier == "quick" else 250 if tier == "search" else 2000
     nc = 6 if tier == "quick" else 15 if tier == "search" else 150
     stats = {}
     def user_of_norm(ax, v):
         tag, lo, d, hi = ax
         return d + v * (hi - d) if v >= 0 else d + v * (d - lo)
     def one(label, data, nlim, nloc, texts):
+        _FONTS[label] = data
         f = TTFont(io.BytesIO(data))
         axes = [(a.axisTag, a.minValue, a.defaultValue, a.maxValue) for a in f["fvar"].axes]
         interesting = {}
@@ -281,6 +315,13 @@ def sweeps(tier, rng):
                 for g in list(f["gvar"].variations)[:40]:
                     for tv in f["gvar"].variations[g]:
                         if ax[0] in tv.axes: vals.update(tv.axes[ax[0]])
+            for tt in ("GSUB", "GPOS"):
+                fv = getattr(f[tt].table, "FeatureVariations", None) if tt in f else None
+                if fv is not None:
+                    for rec in fv.FeatureVariationRecord:
+                        for c_ in (rec.ConditionSet.ConditionTable if rec.ConditionSet else []):
+                            if f["fvar"].axes[c_.AxisIndex].axisTag == ax[0]:
+                                for v_ in (c_.FilterRangeMinValue, c_.FilterRangeMaxValue): vals.update([v_, v_ - 0.01, v_ + 0.01])
             if "avar" in f and ax[0] in f["avar"].segments:
                 # master coordinates are post-avar: map back through the inverse of the segment map
                 seg = sorted(f["avar"].segments[ax[0]].items())
@@ -290,8 +331,12 @@ def sweeps(tier, rng):
                         if t0 <= v <= t1 and t1 > t0: inv[v] = k0 + (k1 - k0) * (v - t0) / (t1 - t0)
                 vals = set(inv.values()) | set(k for k, _ in seg)
             interesting[ax[0]] = [user_of_norm(ax, v) for v in vals if -1 <= v <= 1]
-        for r in range(nlim):
+        has_fv = any(getattr(f[tt_].table, "FeatureVariations", None) is not None for tt_ in ("GSUB", "GPOS") if tt_ in f)
+        for r in range(nlim + (1 if has_fv and len(axes) > 1 else 0)):
             lim = gen_limits(rng, axes, interesting)
+            if r == nlim:
+                # directed: pin one axis only, anywhere; the conditional substitutions on the other axes must survive unchanged
+                ax_ = rng.choice(axes); lim = {ax_[0]: rng.choice([ax_[1], ax_[2], ax_[3], ax_[1] + (ax_[3] - ax_[1]) * rng.randint(1, 15) / 16])}
             optimize = rng.chance(50)
             try:
                 inst = instancer.instantiateVariableFont(TTFont(io.BytesIO(data)), dict(lim), optimize=optimize)
@@ -338,4 +383,63 @@ def sweeps(tier, rng):
         yield (("statistics", str(sorted(stats.items()))), None)
     return [Sweep("generated-variable-fonts", run_generated), Sweep("corpus-variable-fonts", run_corpus), Sweep("deviation-statistics", report)]
 
-def witness(fid): return None
+def _f17_pattern(data, lim):
+    """F17: some FeatureVariations record holds on the WHOLE remaining design space (all its conditions are satisfied by the pins or
+    span the restricted ranges) while another record survives as a conditional one"""
+    from fontTools.ttLib import TTFont
+    from fontTools.varLib import instancer
+    f = TTFont(io.BytesIO(data))
+    try:
+        nl = instancer.AxisLimits(**lim).limitAxesAndPopulateDefaults(f).normalize(f)
+    except Exception:
+        return False
+    for tt in ("GSUB", "GPOS"):
+        fv = getattr(f[tt].table, "FeatureVariations", None) if tt in f else None
+        if fv is None: continue
+        universal = conditional = 0
+        for rec in fv.FeatureVariationRecord:
+            whole = True; possible = True
+            for c in (rec.ConditionSet.ConditionTable if rec.ConditionSet else []):
+                tag = f["fvar"].axes[c.AxisIndex].axisTag
+                lo, hi = (nl[tag].minimum, nl[tag].maximum) if tag in nl else (-1.0, 1.0)
+                if not (c.FilterRangeMinValue <= lo and hi <= c.FilterRangeMaxValue): whole = False
+                if c.FilterRangeMaxValue < lo or hi < c.FilterRangeMinValue: possible = False
+            if not possible: continue
+            if whole: universal += 1
+            else: conditional += 1
+        if universal and conditional: return True
+    return False
+
+def classify(sweep, case, failure):
+    if sweep == "generated-variable-fonts" and "original glyphs" in str(failure) and isinstance(case, tuple) and case[0] in _FONTS:
+        try:
+            if _f17_pattern(_FONTS[case[0]], eval(case[1], {"__builtins__": {}})): return "F17"
+        except Exception:
+            return None
+    return None
+
+F17_CONDS = [([{"wght": (0.2, 1.0)}], {"a": "a.alt"}), ([{"wdth": (0.5, 1.0)}], {"b": "b.alt"})]
+def _f17_font():
+    from fontTools.fontBuilder import FontBuilder
+    from fontTools.varLib.featureVars import addFeatureVariations
+    from props.C07 import _box
+    order = [".notdef", "a", "b", "a.alt", "b.alt"]
+    fb = FontBuilder(1000, isTTF=True); fb.setupGlyphOrder(order); fb.setupCharacterMap({97: "a", 98: "b"})
+    fb.setupGlyf({g: _box(400 + 20 * i) for i, g in enumerate(order)}); fb.setupHorizontalMetrics({g: (500, 20) for g in order})
+    fb.setupHorizontalHeader(ascent=800, descent=-200); fb.setupNameTable({"familyName": "F17", "styleName": "R"}); fb.setupOS2(); fb.setupPost()
+    fb.setupFvar([("wght", 100, 400, 900, "Weight"), ("wdth", 50, 100, 200, "Width")], [])
+    addFeatureVariations(fb.font, F17_CONDS)
+    b = io.BytesIO(); fb.font.save(b); return b.getvalue()
+
+def witness(fid):
+    if fid == "F17":
+        # pin wght where the first record holds everywhere: at wdth below the second record's range 'a' must still become 'a.alt'
+        from fontTools.ttLib import TTFont
+        from fontTools.varLib import instancer
+        from lib.hb import HBFont, save_bytes
+        data = _f17_font(); order = TTFont(io.BytesIO(data)).getGlyphOrder()
+        inst = save_bytes(instancer.instantiateVariableFont(TTFont(io.BytesIO(data)), {"wght": 900}))
+        a = [x[0] for x in HBFont(data, order, variations={"wght": 900, "wdth": 100}).shape("ab")]
+        b = [x[0] for x in HBFont(inst, order, variations={"wdth": 100}).shape("ab")]
+        return a != b
+    return None
